@@ -280,6 +280,25 @@ def main(n: int, c: bool):
     schedule.reverse(f1)(x, 1.0, n)
     schedule.reverse(r0)(b=x, a=0.25)
 """,
+    # gates on a zone chosen by a run-time branch between two FILLED copies of one zone that differ only in their vacancies
+    """
+@move
+def main(n: int, c: bool):
+    z = spec.get_static_trap(zone_id="traps")
+    a = filled.vacate(z, [(0, 0)])
+    b = filled.vacate(z, [(1, 1)])
+    if c:
+        w = a
+    else:
+        w = b
+    gate.top_hat_cz(w)
+    gate.local_rz(0.5, w)
+    gate.local_r(0.25, 0.5, w)
+    f0 = schedule.device_fn(k0, [0, 1], [0])
+    f0(1.0 * n, 2.0)
+    gate.local_rz(0.25, a)
+    gate.local_rz(0.75, b)
+""",
 ]
 
 
